@@ -67,7 +67,7 @@ Definition dup_here (prev : option fnode) (c : fnode) : res (list issue) :=
   if match prev with Some p => node_eqb c p | None => false end
   then match c with
        | FTag _ => Ok [iss K_HED_TAG_REPEATED]
-       | FGroup _ => if first_leaf_ok c then Ok [iss K_HED_TAG_REPEATED_GROUP] else Exn IndexError
+       | FGroup _ => Ok [iss K_HED_TAG_REPEATED_GROUP]
        end
   else Ok [].
 
@@ -103,7 +103,7 @@ Proof.
       destruct (dup_list (Some (FTag t)) y2) as [r2|e]; [|discriminate]. cbn [bind] in Hr. inversion Hr; subst.
       exists (iss K_HED_TAG_REPEATED). split; [left; reflexivity|].
       apply in_or_app. right. apply in_or_app. right. left. reflexivity.
-    + destruct (first_leaf_ok (FGroup g)); [|discriminate]. cbn [bind] in Hr.
+    + cbn [bind] in Hr.
       destruct (dup_n (FGroup g)) as [i2|e]; [|discriminate]. cbn [bind] in Hr.
       destruct (dup_list (Some (FGroup g)) y2) as [r2|e]; [|discriminate]. cbn [bind] in Hr. inversion Hr; subst.
       exists (iss K_HED_TAG_REPEATED_GROUP). split; [right; reflexivity|].
